@@ -50,6 +50,60 @@ pub fn setup(prop: &str, tier: &str, variant: u64) -> Setup {
             m.prop = "C17";
             m.c17 = true;
         }
+        "C05" => {
+            m.prop = "C05";
+            m.c05 = true;
+            // few keys, map-heavy, nested values, XML attributes, causal joins through sync points
+            p.keys = 2;
+            p.calls = [2, 0, 1, 0, 1, 0, 0, 3, 1, 1, 2, 30, 4, 10, 3, 3, 4, 1, 8, 4, 0, 0];
+            p.nested = 25;
+            p.w_syncall = 4;
+            p.w_gc = 1;
+        }
+        "C06" => {
+            m.prop = "C06";
+            m.c06 = true;
+            p.w_probe = 8;
+            p.w_relay = 12;
+            p.w_recsv = 5;
+            p.w_gc = 2;
+        }
+        "C07" => {
+            m.prop = "C07";
+            m.c07 = true;
+            p.w_gc = 3;
+        }
+        "C08" => {
+            m.prop = "C08";
+            m.c08 = true;
+            p.w_probe = 6;
+            p.w_gc = 2;
+        }
+        "C13" => {
+            m.prop = "C13";
+            m.c13 = true;
+            p.w_snap = 8;
+            p.w_restore = 6;
+            p.w_gc = 0;
+            p.gc = None;
+            p.calls = [12, 5, 3, 6, 10, 2, 2, 5, 5, 2, 8, 6, 1, 3, 1, 1, 3, 2, 2, 1, 0, 0];
+        }
+        "C14" => {
+            m.prop = "C14";
+            m.c14 = true;
+            p.w_sticky = 10;
+            p.ascii_pct = 35;
+            p.calls = [14, 4, 3, 3, 10, 1, 2, 6, 6, 2, 8, 2, 0, 1, 0, 0, 4, 3, 0, 0, 0, 0];
+        }
+        "C15" => {
+            m.prop = "C15";
+            m.c15 = true;
+            // deletion-heavy: plain content, nested subtrees, map overwrites, formatting
+            p.w_gc = 6;
+            p.nested = 30;
+            p.cleanup_pct = 40;
+            p.calls = [10, 4, 3, 8, 12, 2, 1, 5, 4, 2, 10, 8, 1, 5, 2, 1, 3, 4, 2, 2, 0, 0];
+        }
         _ => {
             m.prop = "C01";
             m.c01 = true;
@@ -79,6 +133,7 @@ fn nontrivial(prop: &str, w: &World) -> bool {
 
 pub fn run_program(prog: &Program, mon: &MonSet) -> RunResult {
     let mut world = World::new(&prog.cfg, mon.clone());
+    world.ascii = prog.ascii;
     let res = catch(|| {
         for s in &prog.steps {
             world.exec(s)?;
